@@ -203,8 +203,11 @@ class FaultPlan(object):
         self.exc = exc
         self.n = 0
         self.fired_site = None
+        self.only = None         # count only the invocations of callables whose site name starts with this (e.g. "event")
 
     def tick(self, site):
+        if self.only is not None and not site.startswith(self.only):
+            return
         self.n += 1
         if self.k is not None and self.n == self.k:
             self.fired_site = site
